@@ -1,12 +1,18 @@
 (* C10 - Outputs satisfy their structural invariants on every input.
    Proved (recurrence specifications over the reals, exact - rounding is monotone and
    fixes the grid): RSI in [0,100]; TR >= high-low >= 0 (after rounding); ATR >= 0; EMA
-   within the range of its inputs; OBV moves by 0 or the volume.  The remaining relations
-   of the property are decided by correspondence + falsifier. *)
+   within the range of its inputs; OBV moves by 0 or the volume.  Proved about the faithful
+   _calculate_reading models over the reals, for any store and index (before the final
+   rounding, which is monotone): Aroon up/down in [0,100] and oscillator = up - down; Donchian
+   middle = mean of its bounds and between them; Keltner and Bollinger band order; MACD
+   histogram = MACD - signal; Supertrend direction / long / short / trend.  The remaining
+   relations of the property are decided by correspondence + falsifier. *)
 From Coq Require Import ZArith List String Bool Reals.
 From Flocq Require Import Core.
-From Hexital Require Import Base.Prelude Base.Num Model.Candle Inst.RealInst Spec.Steppers
-  Proofs.SpecGeneric Proofs.SpecReal.
+From Hexital Require Import Base.Prelude Base.Num Model.Manager Model.Candle Model.Readings Model.Engine
+  Inst.RealInst Spec.Steppers Proofs.SpecGeneric Proofs.SpecReal Proofs.StructProofs.
+Import ListNotations.
+Local Open Scope string_scope.
 Local Open Scope R_scope.
 
 Theorem C10_rsi_in_0_100 :
@@ -46,3 +52,69 @@ Print Assumptions C10_ema_within_input_range.
 Theorem C10_readings_are_rounded : forall nd x, rnd10 nd (rnd10 nd x) = rnd10 nd x.
 Proof. exact rnd10_idem. Qed.
 Print Assumptions C10_readings_are_rounded.
+
+(* ---- relations of a single reading, for the engine's own _calculate_reading ---- *)
+Theorem C10_aroon_range_and_oscillator :
+  forall (I : ind ROps) rec (period : Z) (st st' : store ROps) i v, (1 <= period)%Z ->
+  i_kind ROps I = K_AROON period -> calc_reading ROps rec I st i = Ok (v, st') ->
+  v = VDict [("AROONU", VNone); ("AROOND", VNone); ("AROONOSC", VNone)] \/
+  exists u d : R, v = VDict [("AROONU", @VNum ROps u); ("AROOND", @VNum ROps d); ("AROONOSC", @VNum ROps (u - d))] /\
+                  0 <= u <= 100 /\ 0 <= d <= 100.
+Proof. exact aroon_structure. Qed.
+Print Assumptions C10_aroon_range_and_oscillator.
+
+Theorem C10_donchian_middle :
+  forall (I : ind ROps) rec (period : Z) (st st' : store ROps) i v,
+  i_kind ROps I = K_DONCHIAN period -> calc_reading ROps rec I st i = Ok (v, st') ->
+  v = VDict [("DCL", VNone); ("DCM", VNone); ("DCU", VNone)] \/
+  exists (l u : val ROps) (ln un : R), v = VDict [("DCL", l); ("DCM", @VNum ROps ((un + ln) / 2)); ("DCU", u)] /\
+    as_num ROps l = Ok ln /\ as_num ROps u = Ok un /\ (ln <= un -> ln <= (un + ln) / 2 <= un).
+Proof. exact donchian_structure. Qed.
+Print Assumptions C10_donchian_middle.
+
+Theorem C10_keltner_band_order :
+  forall (I : ind ROps) rec (period : Z) (mult : R) (input : string) (st st' : store ROps) i v,
+  i_kind ROps I = @K_KC ROps period mult input -> calc_reading ROps rec I st i = Ok (v, st') ->
+  v = VDict [("lower", VNone); ("band", VNone); ("upper", VNone)] \/
+  exists (e a : val ROps) (en an : R),
+    v = VDict [("lower", @VNum ROps (en - mult * an)); ("band", e); ("upper", @VNum ROps (en + mult * an))] /\
+    reading ROps st (i_name ROps I ++ "_EMA") i = Ok e /\ reading ROps st (i_name ROps I ++ "_ATR") i = Ok a /\
+    as_num ROps e = Ok en /\ as_num ROps a = Ok an /\
+    (0 <= mult -> 0 <= an -> en - mult * an <= en <= en + mult * an).
+Proof. exact kc_structure. Qed.
+Print Assumptions C10_keltner_band_order.
+
+Theorem C10_bollinger_band_order :
+  forall (I : ind ROps) rec (period : Z) (input : string) (st st' : store ROps) i v,
+  i_kind ROps I = K_BBANDS period input -> calc_reading ROps rec I st i = Ok (v, st') ->
+  v = VDict [("BBL", VNone); ("BBM", VNone); ("BBU", VNone)] \/
+  exists (sma sd : val ROps) (s d : R),
+    v = VDict [("BBL", @VNum ROps (s - d * (20 / 10))); ("BBM", sma); ("BBU", @VNum ROps (s + d * (20 / 10)))] /\
+    reading ROps st (i_name ROps I ++ "_SMA") i = Ok sma /\ reading ROps st (i_name ROps I ++ "_STDEV") i = Ok sd /\
+    as_num ROps sma = Ok s /\ as_num ROps sd = Ok d /\
+    (0 <= d -> s - d * (20 / 10) <= s <= s + d * (20 / 10)).
+Proof. exact bbands_structure. Qed.
+Print Assumptions C10_bollinger_band_order.
+
+Theorem C10_macd_histogram :
+  forall (I : ind ROps) rec (fast slow signal : Z) (input : string) (st st' : store ROps) i v,
+  i_kind ROps I = K_MACD fast slow signal input -> calc_reading ROps rec I st i = Ok (v, st') ->
+  v = VDict [("MACD", VNone); ("signal", VNone); ("histogram", VNone)] \/
+  exists (m : R) (sg : val ROps),
+    (v = VDict [("MACD", @VNum ROps m); ("signal", sg); ("histogram", VNone)] /\ sg = VNone) \/
+    (exists s : R, as_num ROps sg = Ok s /\ v = VDict [("MACD", @VNum ROps m); ("signal", sg); ("histogram", @VNum ROps (m - s))]).
+Proof. exact macd_structure. Qed.
+Print Assumptions C10_macd_histogram.
+
+Theorem C10_supertrend_sides :
+  forall (I : ind ROps) rec (period : Z) (mult : R) (st st' : store ROps) i v,
+  i_kind ROps I = @K_SUPERTREND ROps period mult -> calc_reading ROps rec I st i = Ok (v, st') ->
+  v = VDict [("trend", VNone); ("direction", @VNum ROps (IZR 1)); ("long", VNone); ("short", VNone)] \/
+  exists (dv : val ROps) (upper lower : R),
+    (is_pm1 dv \/ prev_reading ROps st (i_name ROps I ++ ".direction") i = Ok dv) /\
+    (dv = @VNum ROps (IZR 1) ->
+       v = VDict [("trend", @VNum ROps lower); ("direction", dv); ("long", @VNum ROps lower); ("short", VNone)]) /\
+    (dv = @VNum ROps (IZR (-1)) ->
+       v = VDict [("trend", @VNum ROps upper); ("direction", dv); ("long", VNone); ("short", @VNum ROps upper)]).
+Proof. exact supertrend_structure. Qed.
+Print Assumptions C10_supertrend_sides.
